@@ -219,6 +219,13 @@ pub fn judge_consumer_gone_first(src: Fmt, detect: bool, to: Fmt, size: &'static
 /// stdout on /dev/full, the input on stdin: every combination of source format,
 /// detection, target and size class must end with status 1 and a message.
 pub fn judge_devfull_stdin(src: Fmt, detect: bool, to: Fmt, size: &'static str, variant: usize, acc: &mut Acc) {
+    judge_failing_sink(src, detect, to, size, variant, 0, acc)
+}
+
+/// The same matrix with a choice of failing sink: 0 = /dev/full (a character device), 1 = a regular
+/// file that may not grow at all, 2 = a regular file that may grow to 10 000 bytes (write(2) fails
+/// with EFBIG beyond the limit, as ENOSPC/EDQUOT would on a full file system).
+pub fn judge_failing_sink(src: Fmt, detect: bool, to: Fmt, size: &'static str, variant: usize, sink: u64, acc: &mut Acc) {
     let data = match size {
         "small" => small_input(src, variant),
         _ => match big_input(src, 40 << 10, true) {
@@ -246,18 +253,28 @@ pub fn judge_devfull_stdin(src: Fmt, detect: bool, to: Fmt, size: &'static str, 
         sc.file(&n, &data);
         argv.push(n);
     }
-    let out = procmon::run(Run { bin: &procmon::release_bin(), argv, cwd: sc.path(), stdin, stdout: StdoutKind::DevFull, wall_secs: 60, cpu_secs: 30 });
-    acc.count("dev_full_runs");
-    acc.count(&format!("dev_full_{}{}_{}_{}", src.name(), if detect { "_detected" } else { "" }, size, if variant % 2 == 0 { "stdin" } else { "file" }));
+    let limit = if sink == 1 { 0u64 } else { 10_000 };
+    if sink == 2 && probe.out.len() as u64 <= limit {
+        acc.count("skipped_output_fits_under_the_file_size_limit");
+        acc.evals -= 1;
+        return;
+    }
+    let out = procmon::run(Run { bin: &procmon::release_bin(), argv, cwd: sc.path(), stdin, stdout: if sink == 0 { StdoutKind::DevFull } else { StdoutKind::FileLimited(limit) }, wall_secs: 60, cpu_secs: 30 });
+    let label = if sink == 0 { "dev_full" } else { "limited_regular_file" };
+    acc.count(&format!("{label}_runs"));
+    acc.count(&format!("{label}_{}{}_{}_{}", src.name(), if detect { "_detected" } else { "" }, size, if variant % 2 == 0 { "stdin" } else { "file" }));
     if matches!(out.status, Status::Timeout | Status::SpawnError(_)) {
         acc.inconclusive += 1;
         return;
     }
     let err = String::from_utf8_lossy(&out.stderr);
     if out.status != Status::Exit(1) || !err.starts_with("xt error") {
-        acc.violation(Violation { sig: format!("/dev/full {}{}->{} {} {}: {}", src.name(), if detect { "(detected)" } else { "" }, to.name(), size, if variant % 2 == 0 { "stdin" } else { "file" }, out.status.show()), case: json!({"devfull_matrix": true, "source": src.name(), "detect": detect, "to": to.name(), "size": size, "variant": variant}), observed: format!("status {}, stderr [{}]", out.status.show(), preview(&out.stderr, 200)), expected: "exit 1 and a message beginning 'xt error'".into() });
+        acc.violation(Violation { sig: format!("{} {}{}->{} {} {}: {}", if sink == 0 { "/dev/full" } else { "regular file that cannot grow" }, src.name(), if detect { "(detected)" } else { "" }, to.name(), size, if variant % 2 == 0 { "stdin" } else { "file" }, out.status.show()), case: json!({"devfull_matrix": true, "sink": sink, "source": src.name(), "detect": detect, "to": to.name(), "size": size, "variant": variant}), observed: format!("status {}, stderr [{}], {} bytes reached the file", out.status.show(), preview(&out.stderr, 200), out.stdout.len()), expected: "exit 1 and a message beginning 'xt error'".into() });
     } else {
-        acc.count("dev_full_status_1_with_message");
+        acc.count(&format!("{label}_status_1_with_message"));
+        if sink != 0 && out.stdout.len() as u64 > limit {
+            acc.inconclusive += 1; // the limit did not apply: the run tells nothing
+        }
     }
 }
 
@@ -491,6 +508,7 @@ pub fn run(ctx: &Ctx) -> i32 {
         let (src, detect, to, size, variant) = matrix[i];
         judge_consumer_gone_first(src, detect, to, size, variant, acc);
         judge_devfull_stdin(src, detect, to, size, variant, acc);
+        judge_failing_sink(src, detect, to, size, variant, 1 + (variant as u64 + size.len() as u64) % 2, acc);
     });
     acc.merge(m_acc);
     let mut align = vec![];
@@ -534,9 +552,9 @@ pub fn run(ctx: &Ctx) -> i32 {
             judge_late_small_input(to, k, first, &mut acc);
         }
     }
-    let rule = format!("{} closing-pipe runs: the consumer takes exactly k bytes for k in {:?} and closes while more than 1 MiB of output remains, x 4 targets x input layouts (one 3 MiB file, 3 MiB on stdin, ten 400 KiB files so that the failure is also met in the per-input flush), single-table and multi-document inputs, JSON input named explicitly for every case plus (quick) one rotating or (thorough) every other choice of source format JSON/YAML/MessagePack/TOML, named or detected; a matrix source x named/detected x target x small/40 KiB input in which the consumer is gone before stdin delivers anything (failure met in the final flush for small outputs) and the same matrix with stdout on /dev/full (stdin and file); /dev/full runs whose output is a long run of one-byte values and separators shifted by 0..5 (thorough: 0..63) bytes, so that the first failing write lands on every kind of token; a zero-length file (one empty TOML table) on /dev/full; FIFO operands (source x named/detected x target) on /dev/full and with the consumer gone before the FIFO delivers; plus 16 runs with stdout on /dev/full (outputs below and above the 8 KiB buffer) and 15 runs in which the consumer leaves after the first input's output and a second, small input arrives only afterwards (failure met in the per-input flush); distinct non-trivial = distinct (target, k, layout) cases", cs.len(), KS);
+    let rule = format!("{} closing-pipe runs: the consumer takes exactly k bytes for k in {:?} and closes while more than 1 MiB of output remains, x 4 targets x input layouts (one 3 MiB file, 3 MiB on stdin, ten 400 KiB files so that the failure is also met in the per-input flush), single-table and multi-document inputs, JSON input named explicitly for every case plus (quick) one rotating or (thorough) every other choice of source format JSON/YAML/MessagePack/TOML, named or detected; a matrix source x named/detected x target x small/40 KiB input in which the consumer is gone before stdin delivers anything (failure met in the final flush for small outputs) and the same matrix with stdout on /dev/full (stdin and file) and with stdout on a REGULAR FILE that may not grow (RLIMIT_FSIZE 0 or 10 000 bytes with SIGXFSZ ignored: write(2) fails with EFBIG, like a full file system); /dev/full runs whose output is a long run of one-byte values and separators shifted by 0..5 (thorough: 0..63) bytes, so that the first failing write lands on every kind of token; a zero-length file (one empty TOML table) on /dev/full; FIFO operands (source x named/detected x target) on /dev/full and with the consumer gone before the FIFO delivers; plus 16 runs with stdout on /dev/full (outputs below and above the 8 KiB buffer) and 15 runs in which the consumer leaves after the first input's output and a second, small input arrives only afterwards (failure met in the per-input flush); distinct non-trivial = distinct (target, k, layout) cases", cs.len(), KS);
     ev::finish(
-        Finish { ctx, level: "fault_enumeration", rule, assumptions: vec!["the kernel's pipe semantics: a write to a pipe whose read end is closed fails with EPIPE".into(), "a run in which the consumer could not obtain k bytes is inconclusive, not a violation".into(), "an 'exit 0 although the consumer had left' observation is confirmed by one more run during which no other process is spawned (a concurrently spawned child briefly holds a copy of the read end)".into()], extra: serde_json::Map::new(), exhaustive: false, min_distinct: 40, must_reach: vec![("killed_by_sigpipe_silently".into(), 40), ("dev_full_runs".into(), 16), ("dev_full_status_1_with_message".into(), 100), ("consumer_gone_first_runs".into(), 100), ("dev_full_alignment_runs".into(), 50), ("dev_full_zero_length_file_runs".into(), 6), ("fifo_input_dev_full_runs".into(), 20), ("fifo_input_consumer_gone_runs".into(), 20), ("source_yaml_detected".into(), 3), ("source_msgpack".into(), 3), ("late_small_input_runs".into(), 15), ("layout_many_files".into(), 5), ("layout_stdin".into(), 5)] },
+        Finish { ctx, level: "fault_enumeration", rule, assumptions: vec!["the kernel's pipe semantics: a write to a pipe whose read end is closed fails with EPIPE".into(), "a run in which the consumer could not obtain k bytes is inconclusive, not a violation".into(), "an 'exit 0 although the consumer had left' observation is confirmed by one more run during which no other process is spawned (a concurrently spawned child briefly holds a copy of the read end)".into()], extra: serde_json::Map::new(), exhaustive: false, min_distinct: 40, must_reach: vec![("killed_by_sigpipe_silently".into(), 40), ("dev_full_runs".into(), 16), ("dev_full_status_1_with_message".into(), 100), ("limited_regular_file_status_1_with_message".into(), 60), ("consumer_gone_first_runs".into(), 100), ("dev_full_alignment_runs".into(), 50), ("dev_full_zero_length_file_runs".into(), 6), ("fifo_input_dev_full_runs".into(), 20), ("fifo_input_consumer_gone_runs".into(), 20), ("source_yaml_detected".into(), 3), ("source_msgpack".into(), 3), ("late_small_input_runs".into(), 15), ("layout_many_files".into(), 5), ("layout_stdin".into(), 5)] },
         acc,
     )
 }
@@ -560,7 +578,7 @@ pub fn replay(v: &Value) -> i32 {
         if c["consumer_gone_first"].as_bool() == Some(true) {
             judge_consumer_gone_first(src, detect, to, size, variant, &mut acc);
         } else {
-            judge_devfull_stdin(src, detect, to, size, variant, &mut acc);
+            judge_failing_sink(src, detect, to, size, variant, c["sink"].as_u64().unwrap_or(0), &mut acc);
         }
     } else if c["late_small_input"].as_bool() == Some(true) {
         judge_late_small_input(to, c["k"].as_u64().unwrap_or(0) as usize, c["first_bytes"].as_u64().unwrap_or(300) as usize, &mut acc);
